@@ -11,7 +11,7 @@ import os
 
 import vf
 
-INVS = ["Emit", "TypeOK", "NoLeak", "Decided", "Untouched", "ExceptionKeepsPage", "StableWhenHeaderDecides",
+INVS = ["Emit", "TypeOK", "NoLeak", "Decided", "Untouched", "TagNamesThisPage", "ExceptionKeepsPage", "StableWhenHeaderDecides",
         "CondOnlyForStatic", "CondKeptForStatic", "OutcomeAgrees"]
 
 CONFIGS_QUICK = [(["script", "image"], True), (["subdocument", "xmlhttprequest", "other", "websocket"], False)]
@@ -83,22 +83,40 @@ def run(ctx):
         ctx.extra["session_trace_events"] += nev
         if rejects:
             events = vf.read_ndjson(tr)
+            # an exchange the model rejects is first re-executed alone on a fresh proxy; a defect that needs other
+            # exchanges before it (state kept in the server) does not show that way, so the whole drive is run once more
+            # and the rejections that come back are reported as they are
+            tr2 = os.path.join(ctx.work, "session-trace-%d-again.ndjson" % n)
+            again = None
             done = set()
+            lost = 0
             for rj in rejects:
                 e = events[rj["l"] - 1]
-                k = json.dumps([e["ct"], rj["spec"], rj["code"]], sort_keys=True)
-                if k in done or len(done) >= 25:
+                k = json.dumps([e["req"], e["ct"]], sort_keys=True)
+                kk = json.dumps([e["ct"], rj["spec"], rj["code"]], sort_keys=True)
+                if kk in done or len(done) >= 25:
                     continue
-                done.add(k)
                 case = {"kind": "CASE", "req": e["req"], "ct": e["ct"], "exp": dict(rj["spec"], type1="?", type2="?")}
                 s2, mm2 = replay_cases(ctx, blocked, docexc, [case], "confirm")
                 if not mm2:
-                    raise vf.Inconclusive("rejected proxy exchange did not reproduce: %s" % json.dumps(e))
-                ctx.report("proxy exchange %s, origin answers Content-Type class %r, rules block %s%s: model %s, proxy %s" % (
-                    e["req"], e["ct"], blocked, " + $document exception" if docexc else "", rj["spec"], rj["code"]),
+                    if again is None:
+                        ctx.vh(["drive-session", "blocked=" + ",".join(blocked), "docexc=%d" % (1 if docexc else 0),
+                                "n=%d" % (800 if quick else 8000), "out=" + tr2], timeout=1800)
+                        n2, rj2 = ctx.validate_trace("Trace_ProxySession", tr2, chunk=4000, procs=(2 if quick else 6),
+                                                     constants=constants(blocked, docexc))
+                        ev2 = vf.read_ndjson(tr2)
+                        again = {json.dumps([ev2[r["l"] - 1]["req"], ev2[r["l"] - 1]["ct"]], sort_keys=True) for r in rj2}
+                    if k not in again:
+                        lost += 1
+                        continue
+                done.add(kk)
+                ctx.report("proxy exchange %s, origin answers Content-Type class %r, rules block %s%s: model %s, proxy %s%s" % (
+                    e["req"], e["ct"], blocked, " + $document exception" if docexc else "", rj["spec"], rj["code"],
+                    "" if mm2 else " (only after other exchanges on the same server)"),
                     {"reexec": ["replay-session"], "blocked": blocked, "docexc": docexc, "input": [case]},
                     {"cause": "proxy-session", "entry": "exchange"})
-
+            if lost and not ctx.violations:
+                raise vf.Inconclusive("%d rejected proxy exchanges, none reproduced" % lost)
 
 def replay(ctx, obj):
     ctx.build()
